@@ -30,6 +30,16 @@ def run(res, replay=None):
             s = gen.rand_spec(rng, n_total=rng.choice([2, 3, 3, 4]), n_demes=nd, n_epochs=rng.choice([1, 2]), names=names,
                               end_time='always')
             specs.append(s)
+    if not replay:
+        # two loci: linked migration must also follow the names (asymmetric rates, unsorted listing)
+        for i in range(2 if res.tier == 'quick' else 8):
+            names = rng.choice([['b', 'a'], ['z', 'y'], ['pop_1', 'pop_0']])
+            s = gen.rand_spec(rng, n_total=2, n_demes=2, n_epochs=1, names=names, loci=2, end_time='always')
+            ks = list(s['migration_rates'])
+            s['migration_rates'][ks[0]] = {'0.0': 0.25}
+            s['migration_rates'][ks[1]] = {'0.0': 2.0}
+            s['recombination_rate'] = rng.choice([0.5, 1.0])
+            specs.append(s)
     cases = []
     for s in specs:
         pops = [p for p, _ in s['n_items']]
@@ -45,6 +55,6 @@ def run(res, replay=None):
     for hs in seeds:
         orc.run_oracle(res, 'naming', cases, hashseeds=None if hs == '0' else [hs] * len(cases), chunk=1)
     # exact correspondence of state spaces / rewards on the unsorted configurations
-    space.run_stream(res, 'C08', specs[: (4 if res.tier == 'quick' else 20)], spaces=('lc',))
+    space.run_stream(res, 'C08', specs[-(5 if res.tier == 'quick' else 24):], spaces=('lc',))
     res.extra['input_distribution'] = {'name_sets': sorted({','.join(p for p, _ in s['n_items']) for s in specs}),
                                        'hash_seeds': seeds}
